@@ -152,8 +152,8 @@ pub fn property() -> Property {
         subs: vec![
             prop_sub(
                 "graph.semantics",
-                40_000,
-                1_500_000,
+                200_000,
+                1_600_000,
                 |t| {
                     graph_case(GraphCfg {
                         max_nodes: t.pick(10, 24),
@@ -162,7 +162,7 @@ pub fn property() -> Property {
                 },
                 oracle,
             ),
-            prop_sub("graph.large", 200, 3_000, large_case, oracle),
+            prop_sub("graph.large", 1_000, 8_000, large_case, oracle),
         ],
     }
 }
